@@ -297,6 +297,16 @@ def prop_solver(case, ctx):
     check_result(ctx, spec, cfg, res, mdp, view, name)
 
 
+def large_cases(tier):
+    """16-45 states (discounted any-sign rewards; proper undiscounted / discounted cost problems)"""
+    from vpm.gen.mdp import large_mdp_specs
+    return st.tuples(st.one_of(large_mdp_specs("discounted"), large_mdp_specs("discounted", gammas=[0.99, 0.999]),
+                               large_mdp_specs("ssp"), large_mdp_specs("dproper")),
+                     st.sampled_from(["vi_vec", "vi_vec", "pi", "pi", "vi_dict"]), st.sampled_from([1e-5, 1e-8, 1e-10]),
+                     st.sampled_from([0, -7.5, "-inf"])).map(
+        lambda t: {"mdp": t[0], "cfg": {"solver": t[1], "max_residual": t[2], "tiny_cap": 0, "undefined_value": t[3]}})
+
+
 def prop_vi_diff(case, ctx):
     """vectorised and dict value iteration agree with each other."""
     spec, cfg = case["mdp"], dict(case["cfg"])
@@ -416,6 +426,8 @@ def prop_reuse(case, ctx):
 
 
 PROPS = [
+    Prop("solver_large", large_cases, prop_solver, quick=120, thorough=8000,
+         doc="value iteration (both versions) and policy iteration on MDPs with 16-45 states vs a certified policy-iteration oracle"),
     Prop("vi_vec", strat("vi_vec"), prop_solver, quick=1400, thorough=60000,
          doc="vectorised value iteration vs policy-enumeration oracle"),
     Prop("vi_dict", strat("vi_dict"), prop_solver, quick=500, thorough=18000,
